@@ -80,7 +80,8 @@ def gen_profile(rng, name, names, caps, runtimes, force_fit=True, ids=None):
     return {"name": name, "execution_strategies": strategies}
 
 
-SHAPES = ["single", "chain", "fork", "join", "diamond", "skip", "two_sources", "two_sinks", "cond", "cond_nested", "wide"]
+SHAPES = ["single", "chain", "fork", "join", "diamond", "skip", "two_sources", "two_sinks", "cond", "cond_nested", "wide",
+          "cond_skip"]
 
 
 def gen_shape(rng, shape):
@@ -111,6 +112,11 @@ def gen_shape(rng, shape):
         return [("S", ["X"], {}), ("X", ["L", "R1"], {"conditional": True}),
                 ("L", ["T"], {"probability": p}), ("R1", ["R2"], {"probability": round(1.0 - p, 2)}),
                 ("R2", ["T"], {}), ("T", ["Z"], {"terminal": True}), ("Z", [], {})]
+    if shape == "cond_skip":
+        # a conditional with a DIRECT edge to its own join: S -> X (conditional) -> {H (p) -> T, T (1-p)}; T terminal -> Z
+        p = rng.choice([0.5, 0.75, 0.25])
+        return [("S", ["X"], {}), ("X", ["H", "T"], {"conditional": True}), ("H", ["T"], {"probability": p}),
+                ("T", ["Z"], {"terminal": True, "probability": round(1.0 - p, 2)}), ("Z", [], {})]
     if shape == "cond_nested":
         return [("X", ["L", "Y"], {"conditional": True}), ("L", ["T"], {"probability": 0.5}),
                 ("Y", ["M", "N"], {"conditional": True, "probability": 0.5}),
@@ -198,6 +204,39 @@ def gen_fuzz_world(rng):
     w["policy"] = "FUZZ"
     w["flags"]["scheduler"] = "EDF"         # unused: the harness substitutes its own policy
     return w
+
+
+def gen_direct_world(rng):
+    """a workload handed to the simulator as TaskGraphs built directly (Workload.from_task_graphs, the way the task loaders
+    do it): the dependency-free tasks of ONE graph carry DIFFERENT release times (successive frames of a pipelined source)"""
+    pools, names = gen_cluster(rng)
+    caps = capacity(pools)
+    profiles, graphs = [], []
+    for g in range(rng.randint(1, 2)):
+        shape = rng.choice(["two_sources", "join", "two_sources", "wide", "fork", "single"])
+        tasks = []
+        extra = rng.randint(0, 2)        # further parent-less tasks (frames) released later
+        nodes = gen_shape(rng, shape) + [("F%d" % i, [], {}) for i in range(extra)]
+        has_parent = {c for (_n, cs, _a) in nodes for c in cs}
+        for (n, children, _attrs) in nodes:
+            pname = "prof_D%d_%s" % (g, n)
+            prof = gen_profile(rng, pname, names, caps, RUNTIMES, force_fit=True)
+            prof["execution_strategies"] = [st for st in prof["execution_strategies"]
+                                            if all(":any" in k for k in st["resource_requirements"])][:1] or \
+                [{"batch_size": 1, "runtime": rng.choice(RUNTIMES), "resource_requirements": {"%s:any" % sorted(caps[0])[0]: 1}}]
+            profiles.append(prof)
+            t = {"name": n, "profile": pname, "children": children, "deadline": rng.choice([400, 1000, 5000])}
+            if n not in has_parent:
+                t["release"] = rng.choice([0, 0, 5, 20, 45, 85])
+            tasks.append(t)
+        graphs.append({"name": "D%d" % g, "tasks": tasks})
+    policy = rng.choice(["EDF", "FIFO", "LSF"])
+    flags = {"scheduler": policy, "scheduler_runtime": 0, "random_seed": rng.randint(0, 10 ** 6),
+             "scheduler_frequency": rng.choice([-1, -1, 1, 7]), "scheduler_delay": rng.choice([0, 0, 1]),
+             "runtime_variance": 0, "loop_timeout": rng.choice([10 ** 6, 400]),
+             "scheduler_run_at_worker_free": rng.random() < 0.2}
+    return {"workload": {"graphs": [], "profiles": profiles}, "direct": {"graphs": graphs}, "workers": pools, "flags": flags,
+            "policy": policy}
 
 
 def gen_clockwork_world(rng):
